@@ -93,6 +93,18 @@ def call(I, c, e, env):
         return do_push(I, var, path, val, env)
     if name == "for_each" and tr == "Iterator":
         return for_each(I, args_e, env, e)
+    if name == "iter_mut" and args_e:
+        # a sequence of PLACES: `for x in v.iter_mut()` / `.iter_mut().zip(..)` then writes through x
+        try:
+            var, path = I.place(args_e[0], env)
+            seq = I.read_place(var, path, env)
+            if isinstance(seq, Struct) and seq.name == "Vector":
+                seq = seq.fields["elements"]
+                path = list(path) + [("field", "elements")]
+            if isinstance(seq, Arr) and not isinstance(seq, ListV) and len(seq.classes) == 1:
+                return Arr(seq.classes, lambda k, _v=var, _p=tuple(path): PlaceRef(_v, list(_p) + [("idx", k)]), guards_fn=seq.guards_fn, name="iter_mut")
+        except (NotAPlace, Undecided):
+            pass
     if tr == "MomTropFloat" and name in ("zero", "one", "PI", "from_f64", "from_isize") and args_e:
         # the receiver of a constant builder is a precision carrier, not a data dependence
         I.suppress_reads += 1
@@ -281,6 +293,13 @@ def call_values(I, c, args, e=None, env=None):
         if b.expr == Expr.const(2):
             return Num(Expr.atom(("call", "shl", Expr.const(1), ex.expr)))   # 2^n is 1 << n: one canonical form
         return Num(Expr.atom(("call", "ipow", b.expr, ex.expr)))
+    if name in ("min", "max") and (tr.endswith("Ord") or "usize" in path or "impl u" in path or "impl i" in path) and len(args) == 2 \
+            and isinstance(args[0], Num) and isinstance(args[1], Num):
+        a_, b_ = args[0], args[1]
+        # min / max of two values that are the same formula (two slices of the same length) is that value, size class included
+        if a_.expr == b_.expr:
+            return a_ if a_.size is not None else b_
+        return Num(Expr.atom(("call", name, a_.expr, b_.expr)))
     if name == "count_ones":
         return Num(Expr.atom(("call", "popcount", as_num(args[0]).expr)))
 
